@@ -226,6 +226,8 @@ structure Inv (o0 : Os) (tmp : String) (t : Nat) (w : Bytes) (o : Os) : Prop whe
   oth : ∀ i, i ≠ t → o.inodes.getD i [] = o0.inodes.getD i []
   dur : ∀ i, i ≠ t → o.durable.getD i [] = o0.durable.getD i []
   cnt : o.tmpCount = o0.tmpCount + 1
+  /-- the root holds what it held, plus possibly the temporary name -/
+  rootSub : ∀ k i, aget o.root k = some i → aget o0.root k = some i ∨ (k = tmp ∧ i = t)
 
 def HasFd (o : Os) (t off : Nat) : Prop :=
   aget o.fds internalFd = some { ino := t, off := off, wr := true }
@@ -238,7 +240,8 @@ theorem Inv.of_fds {o0 o o' : Os} {tmp : String} {t : Nat} {w : Bytes} (h : Inv 
     (hi : o'.inodes = o.inodes) (hd : o'.durable = o.durable) (hr : o'.root = o.root)
     (hds : o'.dirs = o.dirs) (hc : o'.tmpCount = o.tmpCount) : Inv o0 tmp t w o' :=
   ⟨h.wf.of_eq (by rw [hi]) (by rw [hd]) hr hds, by rw [hr]; exact h.root, by rw [hi]; exact h.cur,
-   by rw [hds]; exact h.dirs, by rw [hi]; exact h.oth, by rw [hd]; exact h.dur, by rw [hc]; exact h.cnt⟩
+   by rw [hds]; exact h.dirs, by rw [hi]; exact h.oth, by rw [hd]; exact h.dur, by rw [hc]; exact h.cnt,
+   by rw [hr]; exact h.rootSub⟩
 
 theorem Inv.crash {o0 o : Os} {tmp : String} {t : Nat} {w : Bytes} (h : Inv o0 tmp t w o) :
     Inv o0 tmp t w o.crash := h.of_fds rfl rfl rfl rfl rfl
@@ -255,7 +258,7 @@ theorem Inv.write {o0 o : Os} {tmp : String} {t : Nat} {w : Bytes} (h : Inv o0 t
     HasFd (o.write internalFd rem n).1 t (w ++ rem.take n).length ∧
     (o.write internalFd rem n).2 = none := by
   rw [write_eq o internalFd t w.length rem n hfd]
-  refine ⟨⟨h.wf.of_eq (by simp) rfl rfl rfl, h.root, ?_, h.dirs, ?_, h.dur, h.cnt⟩, ?_, rfl⟩
+  refine ⟨⟨h.wf.of_eq (by simp) rfl rfl rfl, h.root, ?_, h.dirs, ?_, h.dur, h.cnt, h.rootSub⟩, ?_, rfl⟩
   · show (o.inodes.set t _).getD t [] = _
     rw [getD_set_same _ _ _ h.lt, h.cur, writeAt_end]
   · intro i hi
@@ -353,13 +356,13 @@ theorem open_spec (o0 : Os) (tmp : String) (hwf : WF o0) :
   cases h : aget o0.root tmp with
   | some ino =>
     rw [openat_tmp_some { o0 with tmpCount := o0.tmpCount + 1 } tmp ino h]
-    refine ⟨rfl, ino, Or.inl h, ⟨hwf.of_eq (by simp) rfl rfl rfl, h, ?_, rfl, ?_, fun _ _ => rfl, rfl⟩, ?_⟩
+    refine ⟨rfl, ino, Or.inl h, ⟨hwf.of_eq (by simp) rfl rfl rfl, h, ?_, rfl, ?_, fun _ _ => rfl, rfl, fun _ _ hk => Or.inl hk⟩, ?_⟩
     · exact getD_set_nil _ _
     · intro i hi; exact getD_set_ne _ _ _ _ hi
     · exact aget_aset_same _ _ _
   | none =>
     rw [openat_tmp_none { o0 with tmpCount := o0.tmpCount + 1 } tmp h]
-    refine ⟨rfl, o0.inodes.length, Or.inr ⟨h, rfl⟩, ⟨⟨?_, ?_, ?_⟩, ?_, ?_, rfl, ?_, ?_, rfl⟩, ?_⟩
+    refine ⟨rfl, o0.inodes.length, Or.inr ⟨h, rfl⟩, ⟨⟨?_, ?_, ?_⟩, ?_, ?_, rfl, ?_, ?_, rfl, ?_⟩, ?_⟩
     · show (o0.inodes ++ [[]]).length = (o0.durable ++ [[]]).length
       simp [hwf.len]
     · intro k ino hk
@@ -379,6 +382,11 @@ theorem open_spec (o0 : Os) (tmp : String) (hwf : WF o0) :
       rw [getD_snoc_nil]; simp [List.getD_eq_getElem?_getD]
     · intro i _; exact getD_snoc_nil _ _
     · intro i _; exact getD_snoc_nil _ _
+    · intro k i hk
+      have hk : aget (aset o0.root tmp o0.inodes.length) k = some i := hk
+      by_cases hkt : k = tmp
+      · subst hkt; rw [aget_aset_same] at hk; cases hk; exact Or.inr ⟨rfl, rfl⟩
+      · rw [aget_aset_ne _ _ _ _ hkt] at hk; exact Or.inl hk
     · exact aget_aset_same _ _ _
 
 
@@ -386,16 +394,17 @@ theorem open_spec (o0 : Os) (tmp : String) (hwf : WF o0) :
 
 /-- Outcome "the rename did not happen": the sub-directories are as they were, every inode but the
 temporary one is untouched. -/
-structure Before (o0 : Os) (t : Nat) (o : Os) : Prop where
+structure Before (o0 : Os) (tmp : String) (t : Nat) (o : Os) : Prop where
   wf : WF o
   dirs : o.dirs = o0.dirs
   oth : ∀ i, i ≠ t → o.inodes.getD i [] = o0.inodes.getD i []
   dur : ∀ i, i ≠ t → o.durable.getD i [] = o0.durable.getD i []
   cnt : o.tmpCount = o0.tmpCount + 1
+  rootSub : ∀ k i, aget o.root k = some i → aget o0.root k = some i ∨ (k = tmp ∧ i = t)
 
 /-- Outcome "the rename happened": `d/n` points to the temporary inode, whose volatile *and*
 durable contents are exactly `data`; nothing else changed in the sub-directories. -/
-structure Done (o0 : Os) (d n : String) (t : Nat) (data : Bytes) (o : Os) : Prop where
+structure Done (o0 : Os) (tmp d n : String) (t : Nat) (data : Bytes) (o : Os) : Prop where
   wf : WF o
   dirs : ∃ es, aget o0.dirs d = some es ∧ o.dirs = aset o0.dirs d (aset es n t)
   cur : o.inodes.getD t [] = data
@@ -403,40 +412,44 @@ structure Done (o0 : Os) (d n : String) (t : Nat) (data : Bytes) (o : Os) : Prop
   oth : ∀ i, i ≠ t → o.inodes.getD i [] = o0.inodes.getD i []
   dur : ∀ i, i ≠ t → o.durable.getD i [] = o0.durable.getD i []
   cnt : o.tmpCount = o0.tmpCount + 1
+  /-- the temporary name is gone from the root, nothing else changed there -/
+  rootSub : ∀ k i, aget o.root k = some i → k ≠ tmp ∧ aget o0.root k = some i
 
 theorem Inv.before {o0 o : Os} {tmp : String} {t : Nat} {w : Bytes} (h : Inv o0 tmp t w o) :
-    Before o0 t o := ⟨h.wf, h.dirs, h.oth, h.dur, h.cnt⟩
+    Before o0 tmp t o := ⟨h.wf, h.dirs, h.oth, h.dur, h.cnt, h.rootSub⟩
 
-theorem Before.early (o0 : Os) (t : Nat) (hwf : WF o0) :
-    Before o0 t { o0 with tmpCount := o0.tmpCount + 1 } :=
-  ⟨hwf.of_eq rfl rfl rfl rfl, rfl, fun _ _ => rfl, fun _ _ => rfl, rfl⟩
+theorem Before.early (o0 : Os) (tmp : String) (t : Nat) (hwf : WF o0) :
+    Before o0 tmp t { o0 with tmpCount := o0.tmpCount + 1 } :=
+  ⟨hwf.of_eq rfl rfl rfl rfl, rfl, fun _ _ => rfl, fun _ _ => rfl, rfl, fun _ _ hk => Or.inl hk⟩
 
-theorem Before.of_fds {o0 o o' : Os} {t : Nat} (h : Before o0 t o)
+theorem Before.of_fds {o0 o o' : Os} {tmp : String} {t : Nat} (h : Before o0 tmp t o)
     (hi : o'.inodes = o.inodes) (hd : o'.durable = o.durable) (hr : o'.root = o.root)
-    (hds : o'.dirs = o.dirs) (hc : o'.tmpCount = o.tmpCount) : Before o0 t o' :=
+    (hds : o'.dirs = o.dirs) (hc : o'.tmpCount = o.tmpCount) : Before o0 tmp t o' :=
   ⟨h.wf.of_eq (by rw [hi]) (by rw [hd]) hr hds, by rw [hds]; exact h.dirs, by rw [hi]; exact h.oth,
-   by rw [hd]; exact h.dur, by rw [hc]; exact h.cnt⟩
+   by rw [hd]; exact h.dur, by rw [hc]; exact h.cnt, by rw [hr]; exact h.rootSub⟩
 
-theorem Before.crash {o0 o : Os} {t : Nat} (h : Before o0 t o) : Before o0 t o.crash :=
+theorem Before.crash {o0 o : Os} {tmp : String} {t : Nat} (h : Before o0 tmp t o) :
+    Before o0 tmp t o.crash :=
   h.of_fds rfl rfl rfl rfl rfl
 
-theorem Before.close {o0 o : Os} {t : Nat} (h : Before o0 t o) (fd : Nat) :
-    Before o0 t (o.close fd).1 := by
+theorem Before.close {o0 o : Os} {tmp : String} {t : Nat} (h : Before o0 tmp t o) (fd : Nat) :
+    Before o0 tmp t (o.close fd).1 := by
   unfold Os.close; split
   · exact h.of_fds rfl rfl rfl rfl rfl
   · exact h
 
-theorem Done.of_fds {o0 o o' : Os} {d n : String} {t : Nat} {data : Bytes} (h : Done o0 d n t data o)
+theorem Done.of_fds {o0 o o' : Os} {tmp d n : String} {t : Nat} {data : Bytes} (h : Done o0 tmp d n t data o)
     (hi : o'.inodes = o.inodes) (hd : o'.durable = o.durable) (hr : o'.root = o.root)
-    (hds : o'.dirs = o.dirs) (hc : o'.tmpCount = o.tmpCount) : Done o0 d n t data o' :=
+    (hds : o'.dirs = o.dirs) (hc : o'.tmpCount = o.tmpCount) : Done o0 tmp d n t data o' :=
   ⟨h.wf.of_eq (by rw [hi]) (by rw [hd]) hr hds, by rw [hds]; exact h.dirs, by rw [hi]; exact h.cur,
-   by rw [hd]; exact h.durc, by rw [hi]; exact h.oth, by rw [hd]; exact h.dur, by rw [hc]; exact h.cnt⟩
+   by rw [hd]; exact h.durc, by rw [hi]; exact h.oth, by rw [hd]; exact h.dur, by rw [hc]; exact h.cnt,
+   by rw [hr]; exact h.rootSub⟩
 
-theorem Done.crash {o0 o : Os} {d n : String} {t : Nat} {data : Bytes} (h : Done o0 d n t data o) :
-    Done o0 d n t data o.crash := h.of_fds rfl rfl rfl rfl rfl
+theorem Done.crash {o0 o : Os} {tmp d n : String} {t : Nat} {data : Bytes} (h : Done o0 tmp d n t data o) :
+    Done o0 tmp d n t data o.crash := h.of_fds rfl rfl rfl rfl rfl
 
-theorem Done.close {o0 o : Os} {d n : String} {t : Nat} {data : Bytes} (h : Done o0 d n t data o)
-    (fd : Nat) : Done o0 d n t data (o.close fd).1 := by
+theorem Done.close {o0 o : Os} {tmp d n : String} {t : Nat} {data : Bytes} (h : Done o0 tmp d n t data o)
+    (fd : Nat) : Done o0 tmp d n t data (o.close fd).1 := by
   unfold Os.close; split
   · exact h.of_fds rfl rfl rfl rfl rfl
   · exact h
@@ -448,7 +461,7 @@ theorem Inv.fsync {o0 o : Os} {tmp : String} {t : Nat} {w : Bytes} {off : Nat} (
     Inv o0 tmp t w (o.fsync internalFd).1 ∧ (o.fsync internalFd).1.durable.getD t [] = w := by
   rw [fsync_eq o internalFd t off hfd]
   have hlt : t < o.durable.length := by rw [← h.wf.len]; exact h.lt
-  refine ⟨⟨h.wf.of_eq rfl (by simp) rfl rfl, h.root, h.cur, h.dirs, h.oth, ?_, h.cnt⟩, ?_⟩
+  refine ⟨⟨h.wf.of_eq rfl (by simp) rfl rfl, h.root, h.cur, h.dirs, h.oth, ?_, h.cnt, h.rootSub⟩, ?_⟩
   · intro i hi
     show (o.durable.set t _).getD i [] = _
     rw [getD_set_ne _ _ _ _ hi]; exact h.dur i hi
@@ -458,10 +471,10 @@ theorem Inv.fsync {o0 o : Os} {tmp : String} {t : Nat} {w : Bytes} {off : Nat} (
 /-- `renameat(tmp → d/n)` when `d` exists: succeeds and yields the `Done` outcome. -/
 theorem Inv.rename {o0 o : Os} {tmp d n : String} {t : Nat} {data : Bytes} {es : List (String × Nat)}
     (h : Inv o0 tmp t data o) (hdur : o.durable.getD t [] = data) (hd : aget o0.dirs d = some es) :
-    (o.renameat tmp (some d) n).2 = none ∧ Done o0 d n t data (o.renameat tmp (some d) n).1 := by
+    (o.renameat tmp (some d) n).2 = none ∧ Done o0 tmp d n t data (o.renameat tmp (some d) n).1 := by
   have hd' : aget o.dirs d = some es := by rw [h.dirs]; exact hd
   rw [renameat_eq o tmp d n t es h.root hd']
-  refine ⟨rfl, ⟨⟨h.wf.len, ?_, ?_⟩, ⟨es, hd, by rw [← h.dirs]⟩, h.cur, hdur, h.oth, h.dur, h.cnt⟩⟩
+  refine ⟨rfl, ⟨⟨h.wf.len, ?_, ?_⟩, ⟨es, hd, by rw [← h.dirs]⟩, h.cur, hdur, h.oth, h.dur, h.cnt, ?_⟩⟩
   · intro k ino hk
     exact h.wf.rootB k ino (aget_adel_some _ _ _ _ hk)
   · intro d' es' n' ino hd'' he
@@ -477,6 +490,13 @@ theorem Inv.rename {o0 o : Os} {tmp d n : String} {t : Nat} {data : Bytes} {es :
         exact h.wf.dirsB d' es n' ino hd' he
     · rw [aget_aset_ne _ _ _ _ hdd] at hd''
       exact h.wf.dirsB d' es' n' ino hd'' he
+  · intro k i hk
+    have hk : aget (adel o.root tmp) k = some i := hk
+    have hkt : k ≠ tmp := fun e => by rw [e, aget_adel_same] at hk; cases hk
+    rw [aget_adel_ne _ _ _ hkt] at hk
+    rcases h.rootSub k i hk with h' | ⟨h', _⟩
+    · exact ⟨hkt, h'⟩
+    · exact absurd h' hkt
 
 
 /-! ### the whole call -/
@@ -484,10 +504,11 @@ theorem Inv.rename {o0 o : Os} {tmp d n : String} {t : Nat} {data : Bytes} {es :
 /-- What a run leaves behind, and how it ended. Either the rename did not happen: the call did not
 return normally, and it was disturbed or the directory is missing. Or it happened: the call returned
 normally, or the process was killed after the rename. -/
-def Outcome (o0 : Os) (d n : String) (data : Bytes) (dist : Disturb) (t : Nat) (r : Os × AcOut) : Prop :=
-  (Before o0 t r.1 ∧ (r.2 = .panic ∨ (r.2 = .crashed ∧ dist.stopAfter.isSome)) ∧
+def Outcome (o0 : Os) (tmp d n : String) (data : Bytes) (dist : Disturb) (t : Nat) (r : Os × AcOut) :
+    Prop :=
+  (Before o0 tmp t r.1 ∧ (r.2 = .panic ∨ (r.2 = .crashed ∧ dist.stopAfter.isSome)) ∧
       (dist.stopAfter = none → dist.failAt = none → aget o0.dirs d = none)) ∨
-  (Done o0 d n t data r.1 ∧ (r.2 = .ok ∨ (r.2 = .crashed ∧ dist.stopAfter.isSome)))
+  (Done o0 tmp d n t data r.1 ∧ (r.2 = .ok ∨ (r.2 = .crashed ∧ dist.stopAfter.isSome)))
 
 /-- The part of `acRun` after the write loop (same text). -/
 def acFinish (dist : Disturb) (tmp d n : String) (o1 : Os) (k : Nat) (out : Option AcOut) : Os × AcOut :=
@@ -534,7 +555,7 @@ theorem finish_spec (dist : Disturb) (o0 : Os) (tmp d n : String) (t : Nat) (dat
     (hnone : out = none → w' = data ∧ HasFd o1 t data.length)
     (hcr : out = some .crashed → dist.stopAfter.isSome)
     (hund : dist.stopAfter = none → dist.failAt = none → out = none) :
-    Outcome o0 d n data dist t (acFinish dist tmp d n o1 k out) := by
+    Outcome o0 tmp d n data dist t (acFinish dist tmp d n o1 k out) := by
   unfold acFinish
   simp only []
   split
@@ -571,17 +592,18 @@ theorem finish_spec (dist : Disturb) (o0 : Os) (tmp d n : String) (t : Nat) (dat
 
 /-- Every run ends in one of the two outcomes, for the inode the temporary name resolves to. -/
 theorem acRun_cases (o0 : Os) (d n : String) (data : Bytes) (dist : Disturb) (hwf : WF o0) :
-    ∃ t, TmpIno o0 (tmpName n o0.tmpCount) t ∧ Outcome o0 d n data dist t (acRun o0 d n data dist) := by
+    ∃ t, TmpIno o0 (tmpName n o0.tmpCount) t ∧
+      Outcome o0 (tmpName n o0.tmpCount) d n data dist t (acRun o0 d n data dist) := by
   rw [acRun_eq]
   split
   · rename_i hs
     obtain ⟨t, ht⟩ := tmpIno_exists o0 (tmpName n o0.tmpCount)
-    exact ⟨t, ht, Or.inl ⟨(Before.early o0 t hwf).crash, Or.inr ⟨rfl, by simp [hs]⟩,
+    exact ⟨t, ht, Or.inl ⟨(Before.early o0 _ t hwf).crash, Or.inr ⟨rfl, by simp [hs]⟩,
       fun h => by rw [h] at hs; cases hs⟩⟩
   split
   · rename_i hf
     obtain ⟨t, ht⟩ := tmpIno_exists o0 (tmpName n o0.tmpCount)
-    exact ⟨t, ht, Or.inl ⟨Before.early o0 t hwf, Or.inl rfl, fun _ h => by rw [h] at hf; cases hf⟩⟩
+    exact ⟨t, ht, Or.inl ⟨Before.early o0 _ t hwf, Or.inl rfl, fun _ h => by rw [h] at hf; cases hf⟩⟩
   obtain ⟨hopen, t, ht, hinv, hfd⟩ := open_spec o0 (tmpName n o0.tmpCount) hwf
   rw [hopen]
   refine ⟨t, ht, ?_⟩
@@ -622,7 +644,7 @@ theorem TmpIno.ne {o0 : Os} {n d' n' : String} {t : Nat} (ht : TmpIno o0 (tmpNam
     have := hwf.lookup_lt hl
     omega
 
-theorem Before.content {o0 o : Os} {t : Nat} (h : Before o0 t o) {d n : String}
+theorem Before.content {o0 o : Os} {tmp : String} {t : Nat} (h : Before o0 tmp t o) {d n : String}
     (hne : o0.lookup (some d) n ≠ some t) :
     content o d n = content o0 d n ∧ durableContent o d n = durableContent o0 d n := by
   simp only [AtomicCreate.content, durableContent, lookup_of_dirs h.dirs]
@@ -632,17 +654,17 @@ theorem Before.content {o0 o : Os} {t : Nat} (h : Before o0 t o) {d n : String}
     have hi : i ≠ t := fun e => hne (by rw [hl, e])
     simp only [Option.map_some, h.oth i hi, h.dur i hi, and_self]
 
-theorem Done.lookup_target {o0 o : Os} {d n : String} {t : Nat} {data : Bytes}
-    (h : Done o0 d n t data o) : o.lookup (some d) n = some t := by
+theorem Done.lookup_target {o0 o : Os} {tmp d n : String} {t : Nat} {data : Bytes}
+    (h : Done o0 tmp d n t data o) : o.lookup (some d) n = some t := by
   obtain ⟨es, _, hd⟩ := h.dirs
   simp only [Os.lookup, Os.entries, hd, aget_aset_same, Option.bind_some]
 
-theorem Done.content_target {o0 o : Os} {d n : String} {t : Nat} {data : Bytes}
-    (h : Done o0 d n t data o) : content o d n = some data ∧ durableContent o d n = some data := by
+theorem Done.content_target {o0 o : Os} {tmp d n : String} {t : Nat} {data : Bytes}
+    (h : Done o0 tmp d n t data o) : content o d n = some data ∧ durableContent o d n = some data := by
   simp only [AtomicCreate.content, durableContent, h.lookup_target, Option.map_some, h.cur, h.durc, and_self]
 
-theorem Done.lookup_other {o0 o : Os} {d n : String} {t : Nat} {data : Bytes}
-    (h : Done o0 d n t data o) {d' n' : String} (hne : (d', n') ≠ (d, n)) :
+theorem Done.lookup_other {o0 o : Os} {tmp d n : String} {t : Nat} {data : Bytes}
+    (h : Done o0 tmp d n t data o) {d' n' : String} (hne : (d', n') ≠ (d, n)) :
     o.lookup (some d') n' = o0.lookup (some d') n' := by
   obtain ⟨es, hes, hd⟩ := h.dirs
   simp only [Os.lookup, Os.entries, hd]
@@ -652,8 +674,8 @@ theorem Done.lookup_other {o0 o : Os} {d n : String} {t : Nat} {data : Bytes}
     rw [aget_aset_same, hes, Option.bind_some, Option.bind_some, aget_aset_ne _ _ _ _ hnn]
   · rw [aget_aset_ne _ _ _ _ hdd]
 
-theorem Done.content_other {o0 o : Os} {d n : String} {t : Nat} {data : Bytes}
-    (h : Done o0 d n t data o) {d' n' : String} (hne : (d', n') ≠ (d, n))
+theorem Done.content_other {o0 o : Os} {tmp d n : String} {t : Nat} {data : Bytes}
+    (h : Done o0 tmp d n t data o) {d' n' : String} (hne : (d', n') ≠ (d, n))
     (hnt : o0.lookup (some d') n' ≠ some t) :
     content o d' n' = content o0 d' n' ∧ durableContent o d' n' = durableContent o0 d' n' := by
   simp only [AtomicCreate.content, durableContent, h.lookup_other hne]
@@ -663,8 +685,8 @@ theorem Done.content_other {o0 o : Os} {d n : String} {t : Nat} {data : Bytes}
     have hi : i ≠ t := fun e => hnt (by rw [hl, e])
     simp only [Option.map_some, h.oth i hi, h.dur i hi, and_self]
 
-theorem Done.dir_isSome {o0 o : Os} {d n : String} {t : Nat} {data : Bytes}
-    (h : Done o0 d n t data o) : (aget o.dirs d).isSome := by
+theorem Done.dir_isSome {o0 o : Os} {tmp d n : String} {t : Nat} {data : Bytes}
+    (h : Done o0 tmp d n t data o) : (aget o.dirs d).isSome := by
   obtain ⟨es, _, hd⟩ := h.dirs
   rw [hd, aget_aset_same]; rfl
 
@@ -688,5 +710,384 @@ theorem acRun_tmpCount (o0 : Os) (d n : String) (data : Bytes) (dist : Disturb) 
   obtain ⟨t, _, hB | hD⟩ := acRun_cases o0 d n data dist hwf
   · exact hB.1.cnt
   · exact hD.1.cnt
+
+
+/-! ### every state reachable through the `DirFs` methods is well-formed -/
+
+theorem WF.entries_lt {o : Os} (h : WF o) {l : Loc} {es : List (String × Nat)} {n : String} {i : Nat}
+    (he : o.entries l = some es) (hn : aget es n = some i) : i < o.inodes.length := by
+  cases l with
+  | none => simp only [Os.entries, Option.some.injEq] at he; subst he; exact h.rootB n i hn
+  | some d => exact h.dirsB d es n i he hn
+
+/-- Replacing the entries of a directory by entries that all refer to existing inodes. -/
+theorem WF.setEntries {o : Os} (h : WF o) (l : Loc) (es' : List (String × Nat))
+    (hes : ∀ k i, aget es' k = some i → i < o.inodes.length) : WF (o.setEntries l es') := by
+  cases l with
+  | none => exact ⟨h.len, hes, h.dirsB⟩
+  | some d =>
+    refine ⟨h.len, h.rootB, ?_⟩
+    intro d' es'' n ino hd he
+    have hd : aget (aset o.dirs d es') d' = some es'' := hd
+    show ino < o.inodes.length
+    by_cases hdd : d' = d
+    · subst hdd; rw [aget_aset_same] at hd; cases hd; exact hes n ino he
+    · rw [aget_aset_ne _ _ _ _ hdd] at hd; exact h.dirsB d' es'' n ino hd he
+
+theorem WF.setEntries_aset {o : Os} (h : WF o) {l : Loc} {es : List (String × Nat)} (n : String)
+    {ino : Nat} (he : o.entries l = some es) (hi : ino < o.inodes.length) :
+    WF (o.setEntries l (aset es n ino)) := by
+  apply h.setEntries
+  intro k i hk
+  by_cases hkn : k = n
+  · subst hkn; rw [aget_aset_same] at hk; cases hk; exact hi
+  · rw [aget_aset_ne _ _ _ _ hkn] at hk; exact h.entries_lt he hk
+
+theorem WF.setEntries_adel {o : Os} (h : WF o) {l : Loc} {es : List (String × Nat)} (n : String)
+    (he : o.entries l = some es) : WF (o.setEntries l (adel es n)) := by
+  apply h.setEntries
+  intro k i hk
+  exact h.entries_lt he (aget_adel_some _ _ _ _ hk)
+
+/-- Growing both content tables by one slot. -/
+theorem WF.grow {o : Os} (h : WF o) :
+    WF { o with inodes := o.inodes ++ [[]], durable := o.durable ++ [[]] } := by
+  refine ⟨?_, ?_, ?_⟩
+  · show (o.inodes ++ [[]]).length = (o.durable ++ [[]]).length
+    simp [h.len]
+  · intro k i hk
+    show i < (o.inodes ++ [[]]).length
+    have := h.rootB k i hk
+    rw [List.length_append]; omega
+  · intro d es n i hd he
+    show i < (o.inodes ++ [[]]).length
+    have := h.dirsB d es n i hd he
+    rw [List.length_append]; omega
+
+theorem WF.openat {o : Os} (h : WF o) (l : Loc) (n : String) (f : OFlags) (internal : Bool) :
+    WF (o.openat l n f internal).1 := by
+  unfold Os.openat
+  simp only []
+  split
+  · exact h
+  · rename_i es hes
+    split
+    · split
+      · exact h
+      · split
+        · exact h.of_eq (by simp) rfl rfl rfl
+        · exact h.of_eq rfl rfl rfl rfl
+    · split
+      · have hg := h.grow
+        have hes' : Os.entries { o with inodes := o.inodes ++ [[]], durable := o.durable ++ [[]] } l = some es := by
+          cases l <;> exact hes
+        have := hg.setEntries_aset n (ino := o.inodes.length) hes'
+          (by show o.inodes.length < (o.inodes ++ [[]]).length; simp)
+        exact this.of_eq rfl rfl rfl rfl
+      · exact h
+
+theorem WF.write {o : Os} (h : WF o) (fd : Nat) (data : Bytes) (n : Nat) : WF (o.write fd data n).1 := by
+  unfold Os.write
+  split
+  · split
+    · exact h
+    · exact h.of_eq (by simp) rfl rfl rfl
+  · exact h
+
+theorem WF.fsync {o : Os} (h : WF o) (fd : Nat) : WF (o.fsync fd).1 := by
+  unfold Os.fsync
+  split
+  · exact h.of_eq rfl (by simp) rfl rfl
+  · exact h
+
+theorem WF.unlinkat {o : Os} (h : WF o) (l : Loc) (n : String) : WF (o.unlinkat l n).1 := by
+  unfold Os.unlinkat
+  split
+  · exact h
+  · rename_i es hes
+    split
+    · exact h.setEntries_adel n hes
+    · exact h
+
+theorem WF.linkat {o : Os} (h : WF o) (ol : Loc) (on : String) (nl : Loc) (nn : String) :
+    WF (o.linkat ol on nl nn).1 := by
+  unfold Os.linkat
+  split
+  · rename_i ino es hl hes
+    split
+    · exact h
+    · refine h.setEntries_aset nn hes ?_
+      simp only [Os.lookup] at hl
+      cases he : o.entries ol with
+      | none => rw [he] at hl; cases hl
+      | some es0 => rw [he] at hl; exact h.entries_lt he hl
+  · exact h
+
+theorem WF.renameat {o : Os} (h : WF o) (tmp : String) (l : Loc) (n : String) :
+    WF (o.renameat tmp l n).1 := by
+  unfold Os.renameat
+  split
+  · rename_i ino es0 hr _
+    have h1 : WF { o with root := adel o.root tmp } :=
+      ⟨h.len, fun k i hk => h.rootB k i (aget_adel_some _ _ _ _ hk), h.dirsB⟩
+    simp only []
+    split
+    · rename_i es hes
+      exact h1.setEntries_aset n hes (h.rootB tmp ino hr)
+    · exact h
+  · exact h
+
+theorem WF.step {o : Os} (h : WF o) (op : Op) : WF (DirFs.step o op).1 := by
+  cases op with
+  | mkdir d => exact h.mkdirat d
+  | create d n =>
+    simp only [DirFs.step]
+    split
+    · exact h.openat _ _ _ _
+    · exact h
+    · exact h
+  | append k data => exact h.write _ _ _
+  | close k => exact h.close _
+  | open_ d n =>
+    simp only [DirFs.step]
+    split
+    · exact h.openat _ _ _ _
+    · exact h
+  | readAt k off len =>
+    simp only [DirFs.step]
+    split <;> exact h
+  | delete d n => exact h.unlinkat _ _
+  | link od on nd nn => exact h.linkat _ _ _ _
+  | atomic d n data => exact acRun_wf o d n data {} h
+  | list d =>
+    simp only [DirFs.step]
+    split <;> exact h
+
+/-- Every state reachable from the empty tree through the `DirFs` methods is well-formed. -/
+theorem WF.run {o : Os} (h : WF o) (ops : List Op) : WF (DirFs.run o ops).1 := by
+  induction ops generalizing o with
+  | nil => exact h
+  | cons op ops ih => exact ih (h.step op)
+
+
+
+/-! ### reachable states keep the root (temporary files) apart from the sub-directories
+
+This discharges `TmpNotLinked` on every state reachable through the `DirFs` methods, without any
+reasoning about the text of temporary names. -/
+
+/-- No file of the root is also linked in a sub-directory, and no two root names share an inode. -/
+structure Sep (o : Os) : Prop where
+  rootDirs : ∀ k i d n, aget o.root k = some i → o.lookup (some d) n ≠ some i
+  rootInj : ∀ k k' i, aget o.root k = some i → aget o.root k' = some i → k = k'
+
+theorem Sep.empty : Sep Os.empty :=
+  ⟨fun _ _ _ _ h => (by cases h), fun _ _ _ h => (by cases h)⟩
+
+theorem Sep.tmpNotLinked {o : Os} (h : Sep o) (n d' n' : String) : TmpNotLinked o n d' n' :=
+  fun ino hi => h.rootDirs _ ino d' n' hi
+
+/-- The root is the same and every sub-directory link was a sub-directory link before. -/
+theorem Sep.of_lookup {o o' : Os} (h : Sep o) (hr : o'.root = o.root)
+    (hl : ∀ d n i, o'.lookup (some d) n = some i → ∃ d0 n0, o.lookup (some d0) n0 = some i) :
+    Sep o' := by
+  refine ⟨?_, by rw [hr]; exact h.rootInj⟩
+  intro k i d n hk hln
+  rw [hr] at hk
+  obtain ⟨d0, n0, h0⟩ := hl d n i hln
+  exact h.rootDirs k i d0 n0 hk h0
+
+theorem Sep.of_eq {o o' : Os} (h : Sep o) (hr : o'.root = o.root) (hd : o'.dirs = o.dirs) : Sep o' :=
+  h.of_lookup hr (fun d n i hl => ⟨d, n, by rw [← lookup_of_dirs hd]; exact hl⟩)
+
+theorem lookup_setEntries {o : Os} (d : String) (es : List (String × Nat)) (d' n' : String) :
+    (o.setEntries (some d) es).lookup (some d') n' =
+      if d' = d then aget es n' else o.lookup (some d') n' := by
+  simp only [Os.lookup, Os.entries, Os.setEntries]
+  by_cases h : d' = d
+  · subst h; simp only [aget_aset_same, Option.bind_some, ↓reduceIte]
+  · simp only [aget_aset_ne _ _ _ _ h, h, ↓reduceIte]
+
+theorem lookup_of_entries {o : Os} {d n : String} {es : List (String × Nat)}
+    (he : o.entries (some d) = some es) : o.lookup (some d) n = aget es n := by
+  simp only [Os.lookup, he, Option.bind_some]
+
+theorem Sep.mkdirat {o : Os} (h : Sep o) (d : String) : Sep (o.mkdirat d).1 := by
+  unfold Os.mkdirat; split
+  · exact h
+  · refine h.of_lookup rfl ?_
+    intro d' n' i hl
+    replace hl : (o.setEntries (some d) []).lookup (some d') n' = some i := hl
+    rw [lookup_setEntries] at hl
+    split at hl
+    · cases hl
+    · exact ⟨d', n', hl⟩
+
+theorem Sep.close {o : Os} (h : Sep o) (fd : Nat) : Sep (o.close fd).1 := by
+  unfold Os.close; split
+  · exact h.of_eq rfl rfl
+  · exact h
+
+theorem Sep.write {o : Os} (h : Sep o) (fd : Nat) (data : Bytes) (n : Nat) : Sep (o.write fd data n).1 := by
+  unfold Os.write; split
+  · split
+    · exact h
+    · exact h.of_eq rfl rfl
+  · exact h
+
+theorem Sep.unlinkat {o : Os} (h : Sep o) (d n : String) : Sep (o.unlinkat (some d) n).1 := by
+  unfold Os.unlinkat
+  split
+  · exact h
+  · rename_i es hes
+    split
+    · refine h.of_lookup (by simp [Os.setEntries]) ?_
+      intro d' n' i hl
+      rw [lookup_setEntries] at hl
+      split at hl
+      · rename_i hdd; subst hdd
+        exact ⟨d', n', by rw [lookup_of_entries hes]; exact aget_adel_some _ _ _ _ hl⟩
+      · exact ⟨d', n', hl⟩
+    · exact h
+
+theorem Sep.linkat {o : Os} (h : Sep o) (od on nd nn : String) :
+    Sep (o.linkat (some od) on (some nd) nn).1 := by
+  unfold Os.linkat
+  split
+  · rename_i ino es hlk hes
+    split
+    · exact h
+    · refine h.of_lookup (by simp [Os.setEntries]) ?_
+      intro d' n' i hl
+      rw [lookup_setEntries] at hl
+      split at hl
+      · rename_i hdd; subst hdd
+        by_cases hnn : n' = nn
+        · subst hnn; rw [aget_aset_same] at hl; cases hl; exact ⟨od, on, hlk⟩
+        · rw [aget_aset_ne _ _ _ _ hnn] at hl
+          exact ⟨d', n', by rw [lookup_of_entries hes]; exact hl⟩
+      · exact ⟨d', n', hl⟩
+  · exact h
+
+/-- `openat` inside a sub-directory: an existing file changes no link; a created one gets a brand
+new inode, which no root name can have (`WF`). -/
+theorem Sep.openat {o : Os} (h : Sep o) (hwf : WF o) (d n : String) (f : OFlags) (internal : Bool) :
+    Sep (o.openat (some d) n f internal).1 := by
+  unfold Os.openat
+  simp only []
+  split
+  · exact h
+  · rename_i es hes
+    split
+    · split
+      · exact h
+      · split
+        · exact h.of_eq rfl rfl
+        · exact h.of_eq rfl rfl
+    · split
+      · refine ⟨?_, h.rootInj⟩
+        intro k i d' n' hk hl
+        replace hk : aget o.root k = some i := hk
+        replace hl : (Os.setEntries { o with inodes := o.inodes ++ [[]], durable := o.durable ++ [[]] }
+            (some d) (aset es n o.inodes.length)).lookup (some d') n' = some i := hl
+        rw [lookup_setEntries] at hl
+        split at hl
+        · rename_i hdd; subst hdd
+          by_cases hnn : n' = n
+          · subst hnn; rw [aget_aset_same] at hl; cases hl
+            have := hwf.rootB k _ hk; omega
+          · rw [aget_aset_ne _ _ _ _ hnn] at hl
+            exact h.rootDirs k i d' n' hk (by rw [lookup_of_entries hes]; exact hl)
+        · exact h.rootDirs k i d' n' hk hl
+      · exact h
+
+theorem TmpIno.not_root {o0 : Os} {tmp : String} {t : Nat} (ht : TmpIno o0 tmp t) (hwf : WF o0)
+    (hsep : Sep o0) {k : String} (hk : aget o0.root k = some t) : k = tmp := by
+  rcases ht with ht | ⟨_, ht⟩
+  · exact hsep.rootInj k tmp t hk ht
+  · have := hwf.rootB k t hk; omega
+
+theorem acRun_sep (o0 : Os) (d n : String) (data : Bytes) (dist : Disturb) (hwf : WF o0)
+    (hsep : Sep o0) : Sep (acRun o0 d n data dist).1 := by
+  obtain ⟨t, ht, hB | hD⟩ := acRun_cases o0 d n data dist hwf
+  · have hB := hB.1
+    refine ⟨?_, ?_⟩
+    · intro k i d' n' hk hl
+      rw [lookup_of_dirs hB.dirs] at hl
+      rcases hB.rootSub k i hk with h0 | ⟨_, hi⟩
+      · exact hsep.rootDirs k i d' n' h0 hl
+      · subst hi; exact ht.ne hwf (hsep.tmpNotLinked n d' n') hl
+    · intro k k' i hk hk'
+      rcases hB.rootSub k i hk with h0 | ⟨hkt, hi⟩ <;> rcases hB.rootSub k' i hk' with h0' | ⟨hkt', hi'⟩
+      · exact hsep.rootInj k k' i h0 h0'
+      · subst hi'; rw [hkt']; exact ht.not_root hwf hsep h0
+      · subst hi; rw [hkt]; exact (ht.not_root hwf hsep h0').symm
+      · rw [hkt, hkt']
+  · have hD := hD.1
+    refine ⟨?_, ?_⟩
+    · intro k i d' n' hk hl
+      obtain ⟨hkt, h0⟩ := hD.rootSub k i hk
+      by_cases hdn : (d', n') = (d, n)
+      · cases hdn
+        rw [hD.lookup_target] at hl; cases hl
+        exact hkt (ht.not_root hwf hsep h0)
+      · rw [hD.lookup_other hdn] at hl
+        exact hsep.rootDirs k i d' n' h0 hl
+    · intro k k' i hk hk'
+      exact hsep.rootInj k k' i (hD.rootSub k i hk).2 (hD.rootSub k' i hk').2
+
+theorem Sep.step {o : Os} (h : Sep o) (hwf : WF o) (op : Op) : Sep (DirFs.step o op).1 := by
+  cases op with
+  | mkdir d => exact h.mkdirat d
+  | create d n =>
+    simp only [DirFs.step]
+    split
+    · exact h.openat hwf _ _ _ _
+    · exact h
+    · exact h
+  | append k data => exact h.write _ _ _
+  | close k => exact h.close _
+  | open_ d n =>
+    simp only [DirFs.step]
+    split
+    · exact h.openat hwf _ _ _ _
+    · exact h
+  | readAt k off len =>
+    simp only [DirFs.step]
+    split <;> exact h
+  | delete d n => exact h.unlinkat _ _
+  | link od on nd nn => exact h.linkat _ _ _ _
+  | atomic d n data => exact acRun_sep o d n data {} hwf h
+  | list d =>
+    simp only [DirFs.step]
+    split <;> exact h
+
+theorem Sep.run {o : Os} (h : Sep o) (hwf : WF o) (ops : List Op) : Sep (DirFs.run o ops).1 := by
+  induction ops generalizing o with
+  | nil => exact h
+  | cons op ops ih => exact ih (h.step hwf op) (hwf.step op)
+
+
+
+/-- States reachable from the empty tree: through the `DirFs` methods, through `AtomicCreate` calls
+disturbed in any way (killed after any number of system calls, a failing system call, short
+writes), and through process crashes. -/
+inductive Reach : Os → Prop
+  | empty : Reach Os.empty
+  | step (o : Os) (op : Op) : Reach o → Reach (DirFs.step o op).1
+  | atomic (o : Os) (d n : String) (data : Bytes) (dist : Disturb) : Reach o → Reach (acRun o d n data dist).1
+  | crash (o : Os) : Reach o → Reach o.crash
+
+theorem Reach.run {o : Os} (h : Reach o) (ops : List Op) : Reach (DirFs.run o ops).1 := by
+  induction ops generalizing o with
+  | nil => exact h
+  | cons op ops ih => exact ih (Reach.step o op h)
+
+theorem Reach.wf_sep {o : Os} (h : Reach o) : WF o ∧ Sep o := by
+  induction h with
+  | empty => exact ⟨WF.empty, Sep.empty⟩
+  | step o op _ ih => exact ⟨ih.1.step op, ih.2.step ih.1 op⟩
+  | atomic o d n data dist _ ih => exact ⟨acRun_wf o d n data dist ih.1, acRun_sep o d n data dist ih.1 ih.2⟩
+  | crash o _ ih => exact ⟨ih.1.crash, ih.2.of_eq rfl rfl⟩
 
 end GooseVerif.Lemmas.AtomicCreate
